@@ -37,6 +37,22 @@ def _work(args):
     if "L10" in laws:
         syntactic = L.l10_obligations(repo, ci, L.Runs(repo, ci))
     sanity = [VC(f"{cname}:sanity:hypotheses-consistent", L.base(ci) , z3.BoolVal(False), {"law": "sanity", "cls": cname}, expect="not-unsat")]
+    # reachability behind the path conditions: the hypotheses together with SOME returning path of every method must not be refutable
+    # (an executor that produced contradictory path facts would make every obligation of that method vacuously true)
+    if any(l not in ("L10", "C05") for l in laws):
+        R = L.Runs(repo, ci)
+        R.cache = getattr(L, "_LAST_RUNS_CACHE", {}).get(cname, R.cache)
+        for meth in ("evaluate", "validate", "keys", "explain"):
+            if meth == "evaluate" and cname in L.NO_EVALUATE:
+                continue
+            try:
+                ps = R.paths(meth, 1)
+            except Exception:  # noqa
+                continue
+            oks = [p for p in ps if p.kind == "ok"]
+            if oks:
+                sanity.append(VC(f"{cname}:sanity:{meth}-has-a-feasible-returning-path", L.base(ci) + [z3.Or(*[L.pathcond(p) for p in oks])], z3.BoolVal(False),
+                                 {"law": "sanity", "cls": cname}, expect="not-unsat"))
     res = solve.discharge_split(vcs + sanity, timeout_ms=timeout_ms, second_opinion=True)
     fns, hashes = class_hashes(repo, ci)
     import hashlib
